@@ -132,8 +132,12 @@ def run(ctx: Ctx):
     for k, c in enumerate(rig.exhaustive_cases(base_cfg, [login], ctx.scale(3, 4), core)):
         cases.append((f"exhcore:{k}", c))
     # the last-administrator rule: two administrator accounts, every way of disabling / enabling them
-    for k, c in enumerate(rig.exhaustive_cases(base_cfg, rig.ADMIN_PREFIX, ctx.scale(3, 4), rig.admin_alphabet())):
+    # (all eleven instances at depth 3; thorough: additionally the eight disable / enable / add instances at depth 4)
+    for k, c in enumerate(rig.exhaustive_cases(base_cfg, rig.ADMIN_PREFIX, 3, rig.admin_alphabet())):
         cases.append((f"exhadmin:{k}", c))
+    if ctx.thorough:
+        for k, c in enumerate(rig.exhaustive_cases(base_cfg, rig.ADMIN_PREFIX, 4, rig.admin_alphabet()[:8])):
+            cases.append((f"exhadmin4:{k}", c))
     # direct session-manager requests and nested commands on three nodes
     cfg3 = dict(base_cfg, n=3)
     for k, c in enumerate(rig.exhaustive_cases(cfg3, [], ctx.scale(2, 3), rig.session_alphabet())):
@@ -141,7 +145,9 @@ def run(ctx: Ctx):
     # transport: routed topology (every host behind its own router port), both directions of the 0 <-> 1 path blocked / opened
     cfgr = dict(base_cfg, topo="routed", max=2)
     for pi, prefix in enumerate([[], [login]]):
-        for k, c in enumerate(rig.exhaustive_cases(cfgr, prefix, ctx.scale(3, 4) - pi, rig.route_alphabet())):
+        # (after the login prefix the quick tier leaves out the last two instances of the alphabet: 8^3 instead of 10^3)
+        alpha_r = rig.route_alphabet() if (pi == 0 or ctx.thorough) else rig.route_alphabet()[:8]
+        for k, c in enumerate(rig.exhaustive_cases(cfgr, prefix, ctx.scale(3, 4 - pi), alpha_r)):
             cases.append((f"exhroute:{pi}:{k}", c))
     # the session core of the first family once more on the routed topology (nothing blocked: must behave like the switch)
     for k, c in enumerate(rig.exhaustive_cases(dict(base_cfg, topo="routed"), [login], ctx.scale(2, 3), core)):
